@@ -7,6 +7,7 @@ from fractions import Fraction
 import qenv  # noqa: F401
 import torch
 from exact import FMT, FMT_NAME, from_fractions, pow2, to_fractions
+from total import total
 from optimum.quanto import qtypes, quantize_weight
 from optimum.quanto.tensor.quantizers import AffineQuantizer
 
@@ -20,6 +21,10 @@ def as_int(v, unit):
     return int(q) if q.denominator == 1 and abs(q) < 30000000 else BAD
 
 
+class Unrepresentable(Exception):
+    """the numbers TLC chose do not exist in this float format (decided before any call into quanto)"""
+
+
 def run(gc, groups, bits, fmt, k, strided):
     shape, axis, gs = gc["shape"], gc["axis"], gc["gs"]
     n = len(gc["gid"])
@@ -30,9 +35,20 @@ def run(gc, groups, bits, fmt, k, strided):
     for p in range(n):
         g, slot = gc["gid"][p], gc["slot"][p]
         vals[p] = Fraction(groups[g % len(groups)]["x"][slot]) * units[g]
-    x = from_fractions(vals, dtype, shape)
+    try:
+        x = from_fractions(vals, dtype, shape)
+    except ValueError as e:
+        raise Unrepresentable(str(e))
     if strided and x.ndim >= 2:
         x = x.transpose(0, -1).contiguous().transpose(0, -1)
+    return _run(gc, groups, bits, fmt, k, strided, x, units)
+
+
+@total("AffL", describe=lambda gc, groups, bits, fmt, k, strided, x, units: {"bits": bits, "fmt": fmt, "k": k, "shape": gc["shape"], "axis": gc["axis"], "gs": gc["gs"], "strided": bool(strided)})
+def _run(gc, groups, bits, fmt, k, strided, x, units):
+    shape, axis, gs = gc["shape"], gc["axis"], gc["gs"]
+    n = len(gc["gid"])
+    ng = n // gs
     qtype = qtypes["qint%d" % bits]
     q = quantize_weight(x, qtype, axis, gs)
     dq = q.dequantize()
@@ -86,8 +102,11 @@ def main():
                 for k in req.get("ks", [-4, 1]):
                     try:
                         ev = run(gc, chunk, bits, fmt, k, strided=(gi % 2 == 0))
-                    except ValueError:
+                    except Unrepresentable:
                         skipped += 1
+                        continue
+                    if ev["act"] == "Raised":
+                        traces.append([ev])
                         continue
                     if ev["act"] == "AffW":
                         wide.append([ev])
